@@ -71,7 +71,7 @@ theorem cnt_crash {s : State} (h : Cnt s) (w : String) : Cnt (s.crash w) := by
 
 theorem cnt_count {cfg : Cfg} {s : State} (h : Cnt s) (t : Int) : Cnt (countMsg cfg s t) := by
   unfold countMsg; split
-  · exact h
+  · exact cnt_misc h _ rfl rfl rfl
   · exact cnt_misc h _ rfl rfl rfl
 
 /-- a successful write: the next count, stamped and recorded -/
@@ -632,7 +632,7 @@ theorem t2_io {s : State} (h : Top2 cfg s) (a : Bool) (w : List Nat) (rs : List 
 theorem t2_ticks {s : State} (h : Top2 cfg s) : Top2 cfg (ticks cfg s) := by
   unfold ticks
   dsimp only
-  have h1 : Top2 cfg (if (cfg.timing && decide (s.now - s.tTiming > 900)) = true then
+  have h1 : Top2 cfg (if (cfg.timing && decide (s.now - s.tTiming > cfg.pTiming)) = true then
       { sendTiming cfg s with tTiming := s.now } else s) := by
     split
     · unfold sendTiming; dsimp only
@@ -640,9 +640,9 @@ theorem t2_ticks {s : State} (h : Top2 cfg s) : Top2 cfg (ticks cfg s) := by
       have a2 := t2_fwd ok hfuel a1 (mgrFrame cfg.mtTiming 0 cfg.szTiming (Body.timing (timingEntries cfg s.counts) (pidEntries s.mods)))
       exact t2_same ok hfuel (t2_same ok hfuel a2 _ rfl rfl rfl rfl rfl) _ rfl rfl rfl rfl rfl
     · exact h
-  generalize (if (cfg.timing && decide (s.now - s.tTiming > 900)) = true then
+  generalize (if (cfg.timing && decide (s.now - s.tTiming > cfg.pTiming)) = true then
       { sendTiming cfg s with tTiming := s.now } else s) = s1 at h1 ⊢
-  have h2 : Top2 cfg (if s1.now - s1.tTraffic > 1000 then sendTraffic cfg s1 else s1) := by
+  have h2 : Top2 cfg (if s1.now - s1.tTraffic > cfg.pTraffic then sendTraffic cfg s1 else s1) := by
     split
     · unfold sendTraffic; dsimp only
       have a1 : Top2 cfg ({ s1 with inTraffic := true } : State) := t2_same ok hfuel h1 _ rfl rfl rfl rfl rfl
@@ -651,7 +651,7 @@ theorem t2_ticks {s : State} (h : Top2 cfg s) : Top2 cfg (ticks cfg s) := by
       have a2 := t2_foldl_fwd ok hfuel (trafficFrames cfg s1'.trafficSeq s1'.traffic) a1'
       exact t2_same ok hfuel a2 _ rfl rfl rfl rfl rfl
     · exact h1
-  generalize (if s1.now - s1.tTraffic > 1000 then sendTraffic cfg s1 else s1) = s2 at h2 ⊢
+  generalize (if s1.now - s1.tTraffic > cfg.pTraffic then sendTraffic cfg s1 else s1) = s2 at h2 ⊢
   split
   · unfold sendActive; dsimp only
     have a0 := t2_log ok hfuel h2 10
